@@ -31,8 +31,8 @@ CASE_TIMEOUT = 60
 
 def budget(tier):
     if tier == "quick":
-        return {"cases": 5000, "workers": 8, "watchdog_s": 1200}
-    return {"cases": 250000, "workers": 16, "watchdog_s": 5400}
+        return {"cases": 40000, "workers": 8, "watchdog_s": 1800}
+    return {"cases": 1600000, "workers": 16, "watchdog_s": 3600, "budget_s": 600}
 
 
 def gen_case(rng, tier):
@@ -100,6 +100,9 @@ def run_case(case):
         except Exception as exc:  # noqa: BLE001
             if "Joins are not supported by the iteration engine" in str(exc):
                 out["skip"] = "iteration_join"
+                return out
+            if "will not preserve row order" in str(exc):
+                out["skip"] = "evaluation_refused_at_process_time"  # C07's known finding, not a Diagnostics matter
                 return out
             out["violations"].append({"kind": "not_evaluable", "detail": f"{label}: {exc_str(exc)}"})
             return out
